@@ -6,9 +6,16 @@ import props
 OPS = ("mulntt", "mulnttshoup", "tab")
 
 
+FUNCTOR_OPS = ("mulmod", "cshoup", "mulshoup4")
+
+
 def streams(ctx, res):
     seeds = [ctx["seed"]] if ctx["tier"] == "quick" else [ctx["seed"], ctx["seed"] + 1, ctx["seed"] + 2]
-    return nc.ntt_streams(ctx, res, OPS, seeds=seeds)
+    cov = nc.ntt_streams(ctx, res, OPS, seeds=seeds)
+    # the product theorems rest on the exactness of mulmod / compute_shoup / mulmod_shoup: their boundary-directed
+    # functor stream (quotients within eps/p of an integer, lazy words, structured magnitudes) is part of C01's tie
+    props.ops_streams(ctx, res, backends=("serial",), only=lambda l: l.split(" ", 1)[0] in FUNCTOR_OPS)
+    return cov
 
 
 def search(ctx, res, problems):
